@@ -15,6 +15,7 @@ from ..logic import *
 from ..report import Obl, Rule
 from .. import build
 from . import c02
+from .. import affine
 
 PROP = 'C10'
 RULES = [
@@ -38,10 +39,17 @@ def views(tier):
     return ['V0'] if tier == 'quick' else ['V0', 'V1', 'noSEQ']
 
 
-def slice_names(fn, expr, sd, depth=0, seen=None):
-    """names of fields / locals / params in the backward slice of expr through single-definition locals and += updates"""
+def slice_names(fn, expr, sd, depth=0, seen=None, facts=None):
+    """names of fields / locals / params in the backward slice of expr through single-definition locals and += updates, and through
+    the values returned by local helpers (a term of the formula moved into a helper is still a term of the formula)"""
     out = set()
     for x in walk(expr):
+        if facts is not None and isinstance(x, dict) and 'callee' in x and depth < 4:
+            for cf in facts.fns.get(callee_name(x), [])[:1]:
+                if is_local_helper(fn, cf):
+                    for b_, j_, st_ in cf.cfg.returns():
+                        if st_['s'].get('e') is not None:
+                            out |= slice_names(cf, st_['s']['e'], None, depth + 1, None, facts)
         if x.get('k') == 'MemberExpr':
             out.add(short(x['n']))
         if x.get('k') == 'DeclRefExpr' and not x.get('fn'):
@@ -53,11 +61,11 @@ def slice_names(fn, expr, sd, depth=0, seen=None):
                     if s.get('k') == 'DeclStmt':
                         for v in s['decls']:
                             if v['id'] == x.get('id') and 'init' in v and (seen is None or v['id'] not in seen):
-                                out |= slice_names(fn, v['init'], sd, depth + 1, (seen or set()) | {v['id']})
+                                out |= slice_names(fn, v['init'], sd, depth + 1, (seen or set()) | {v['id']}, facts)
                     for y in walk(s):
                         ap = assign_parts(y)
                         if ap and strip(ap[0]).get('id') == x.get('id') and (seen is None or ('a', y.get('ln')) not in seen):
-                            out |= slice_names(fn, ap[1], sd, depth + 1, (seen or set()) | {('a', y.get('ln'))})
+                            out |= slice_names(fn, ap[1], sd, depth + 1, (seen or set()) | {('a', y.get('ln'))}, facts)
     return out
 
 
@@ -67,17 +75,18 @@ def analyse(facts, tier):
     # exactly at the bias, otherwise one key value is programmed 128 semitones off
     non = facts.fn('OPNMIDIplay::realTime_NoteOn')
     nd = 0
+    sd_non = single_defs(non.d)
     for b, j, st in non.cfg.stmts():
         for x in walk(st['s']):
             ap = assign_parts(x)
             if not (ap and strip(ap[0]).get('k') == 'DeclRefExpr' and not strip(ap[0]).get('parm')):
                 continue
-            r = strip(ap[1])
+            r = strip(subst(ap[1], sd_non))         # the drum key may be read into a local first
             if r.get('k') == 'BinaryOperator' and r['op'] == '-' and mentions(r['l'], member_named('drumTone')) and const_of(r['r']) is not None:
                 nd += 1
                 bias = const_of(r['r'])
                 lo = None
-                for f in guard_facts(non, b, st):
+                for f in guard_facts(non, b, st, sd=sd_non):
                     n_ = cmp_norm(f) if f[0] == 'cmp' else None
                     if n_ and mentions(n_[1], member_named('drumTone')):
                         if n_[0] == '>=':
@@ -108,6 +117,20 @@ def analyse(facts, tier):
                 if ap:
                     r = show(strip(ap[1]))
                     val_ok = '8192' in r and ('- 8192' in r)
+        if not stores and not upd:
+            # the overload hands the message to the other overload: on every path, same channel, and the value it passes is the
+            # 14-bit combination of both data bytes (the other overload is checked in its own right)
+            sd_f = single_defs(fn.d)
+            for b, j, st in fn.cfg.stmts():
+                for x in calls_in(st['s']):
+                    if callee_name(x) == fn.name and len(x.get('a', [])) == 2 and len(fn.params) == 3 and strip(x['a'][0]).get('id') == fn.params[0]['id'] and ('b', b) in pd:
+                        v_ = strip(subst(x['a'][1], sd_f))
+                        while isinstance(v_, dict) and (v_.get('k') or '').endswith('CastExpr'):
+                            v_ = strip(v_.get('e'))
+                        f_ = affine.Affine(fn, [], {}).form(v_, {})
+                        names_ = {p_['n']: i_ for i_, p_ in enumerate(fn.params)}
+                        if f_ is not None and f_[1] == 0 and sorted(f_[0].values()) == [1, 128] and set(f_[0]) == {fn.params[1]['n'], fn.params[2]['n']}:
+                            ok = val_ok = True
         obls.append(Obl('C10.R1', fn.name + ('/ML' if len(fn.params) == 3 else ''), 'store bend; noteUpdateAll(channel, Upd_Pitch)', fn.loc, 'discharged' if (ok and val_ok) else 'finding',
                         why='bend = value - 8192, then every note of the channel is re-pitched, on every path' if (ok and val_ok) else 'a pitch-bend message does not (always) store the centred bend and re-pitch the channel'))
 
@@ -123,7 +146,7 @@ def analyse(facts, tier):
                     call = (b, j, st, x)
     if call is None:
         raise build.AnalysisBroken('C10.R2: synth.noteOn in the Upd_Pitch branch not found')
-    names = slice_names(nu, call[3]['a'][1], sd)
+    names = slice_names(nu, call[3]['a'][1], sd, facts=facts)
     for need, what in (('currentTone', 'gliding / key tone'), ('bend', 'pitch bend'), ('bendsense', 'bend range'), ('noteOffset', 'instrument note offset'),
                        ('vibdepth', 'vibrato depth'), ('vibpos', 'vibrato phase'), ('voice2_fine_tune', 'second-voice fine tune')):
         ok = need in names
@@ -157,25 +180,31 @@ def analyse(facts, tier):
     okadd = a.get('k') == 'BinaryOperator' and a['op'] == '+' and 'currentTone' in names and ' - ' not in show(a)
     obls.append(Obl('C10.R2', nu.name, 'tone = currentTone + bend + phase', call[2]['loc'], 'discharged' if okadd else 'finding', why=show(a)))
     ub = facts.fn('OPNMIDIplay::MIDIchannel::updateBendSensitivity')
-    cent = None
-    for b, j, st in ub.cfg.stmts():
-        if st['s'].get('k') == 'DeclStmt':
-            for v in st['s']['decls']:
-                if 'init' in v:
-                    cent = strip(v['init'])
-    okc = cent is not None and 'bendsense_msb * 128' in show(cent) and 'bendsense_lsb' in show(cent)
-    scale = None
-    for b, j, st in ub.cfg.stmts():
-        for x in walk(st['s']):
+    # the value stored into bendsense, locals replaced by their definitions: (an integer expression with the affine form
+    # 128 * msb + lsb) times / divided by a floating constant
+    from .. import affine as _aff
+    sd_ub = single_defs(ub.d)
+    eng_ = _aff.Affine(ub, [], {})
+    cent, scale = None, None
+    for b_, j_, st_ in ub.cfg.stmts():
+        for x in walk(st_['s']):
             ap = assign_parts(x)
             if ap and short(strip(ap[0]).get('n', '')) == 'bendsense':
-                for y in walk(ap[1]):
-                    if 'fc' in y and y.get('k') != 'DeclRefExpr':
-                        scale = y['fc']       # outermost folded floating constant
-                        break
+                r_ = strip(subst(ap[1], sd_ub))
+                if r_.get('k') == 'BinaryOperator' and r_.get('op') in ('*', '/'):
+                    for ie, fe in ((r_['l'], r_['r']), (r_['r'], r_['l'])):
+                        fcv = strip(fe).get('fc') if isinstance(strip(fe), dict) else None
+                        ie_ = strip(ie)
+                        while isinstance(ie_, dict) and (ie_.get('k') or '').endswith('CastExpr'):
+                            ie_ = strip(ie_.get('e'))
+                        f_ = eng_.form(ie_, {}) if fcv is not None else None
+                        if f_ is not None:
+                            cent = f_
+                            scale = fcv if r_['op'] == '*' else (1.0 / fcv if fcv else None)
+    okc = cent is not None and cent == ({'bendsense_msb': 128, 'bendsense_lsb': 1}, 0)
     oks = scale is not None and abs(scale - 1.0 / (128 * 8192)) < 1e-12
     obls.append(Obl('C10.R2', ub.name, 'bend range = (msb*128 + lsb) / (128*8192) semitones per bend unit', ub.loc, 'discharged' if (okc and oks) else 'finding',
-                    why='cent = msb*128 + lsb; bendsense = cent / 1048576' if (okc and oks) else 'bend range is not derived from both RPN 0 bytes with the 14-bit scale (%s, %s)' % (show(cent) if cent else None, scale)))
+                    why='cent = msb*128 + lsb; bendsense = cent / 1048576' if (okc and oks) else 'bend range is not derived from both RPN 0 bytes with the 14-bit scale (%s, %s)' % (cent, scale)))
     # every store of either RPN byte outside MIDIchannel itself is followed by updateBendSensitivity on the same object
     n = 0
     for fn in facts.all_fns():
